@@ -358,11 +358,12 @@ func report(prop, tier string, results []UnitResult, wall time.Duration) int {
 	}
 	fmt.Printf("%s tier=%s units=%d executions=%d states=%d transitions=%d max_depth=%d outcomes=%d exhaustive=%v wall=%.1fs violations=%d\n",
 		prop, tier, len(results), tot.Execs, tot.States, tot.Transitions, tot.MaxDepth, tot.Outcomes, tot.Exhaustive && !infra, wall.Seconds(), nviol)
+	if nviol > 0 {
+		// confirmed violations are a verdict even if another unit had an infrastructure failure
+		return 1
+	}
 	if infra {
 		return 3
-	}
-	if nviol > 0 {
-		return 1
 	}
 	return 0
 }
